@@ -34,6 +34,7 @@ func init() {
 			"SHARED Schema objects (same schema on many goroutines and different schemas mixed); every transcript must equal its serial twin byte for byte " +
 			"(checksums included) and the Go race detector must stay silent. Delays are injected only at real suspension points: the harness io.Reader " +
 			"yields / sleeps at random chunk boundaries and the vf_yield custom function yields in the middle of a record's evaluation. " +
+			"Two more phases per arena: (a) a sliding window of 2-4 live transforms advanced in turns in ONE goroutine, new ones created as others end; (b) cold start: a schema whose xpath / script strings the process has never seen, first used by 2-8 goroutines released together, compared with the same transform alone afterwards. A ledger of the node IDs in the record trees the goroutines currently hold asserts that no ID is carried by two live nodes. " +
 			"distinct = digest(arena, G, GOMAXPROCS); non-trivial = >=2 goroutines ran the same Schema object concurrently.",
 		Assumptions: []string{
 			"one Transform per goroutine (sharing a Transform is documented as unsupported); concurrent NewSchema calls are not part of the statement",
